@@ -78,7 +78,37 @@ def narrow_complement_masks(F):
     return hits
 
 
+def reverse_shift_mismatches(F):
+    """`x.reverse_bits() >> (K - bits)` keeps the low `bits` bits of x reversed only if K is the width of x's type: reports
+    [(function, type width, K, where)] where the two differ."""
+    import re
+    hits, seen = [], 0
+    for b in F.all_bodies():
+        if "::tests::" in b.name or b.name.startswith("internal::"):
+            continue
+        for bi, si, st in b.stmts():
+            if st["s"] != "assign" or st["rv"]["r"] != "bin" or st["rv"]["op"] != "Shr":
+                continue
+            x = core(b.term_of_operand(st["rv"]["a"]))
+            if not (x[0] == "call" and x[1].endswith("::reverse_bits")):
+                continue
+            mt = re.search(r"impl ([ui])(\d+|size)>", x[1])
+            if not mt:
+                continue
+            width = 64 if mt.group(2) == "size" else int(mt.group(2))
+            amt = core(b.term_of_operand(st["rv"]["b"]))
+            if amt[0] == "bin" and amt[1] == "Sub" and core(amt[2])[0] == "const" and isinstance(core(amt[2])[1], int):
+                seen += 1
+                if core(amt[2])[1] != width:
+                    hits.append((b.name, width, core(amt[2])[1], loc(st["sp"])))
+    return hits, seen
+
+
 def check_config(ctx, F, tag, cfg):
+    # ---------------- R6 reversal width
+    hits, seen = reverse_shift_mismatches(F)
+    ctx.ob("C17.R6.reverse-shift-width", "crate" + tag, "src/", not hits, "dataflow",
+           "%d `reverse_bits() >> (K - bits)` sites; K differs from the reversed type's width at: %s" % (seen, hits), nontrivial=False)
     # ---------------- R5 mask width
     hits = narrow_complement_masks(F)
     ctx.ob("C17.R5.mask-complement-width", "crate" + tag, "src/", not hits, "dataflow",
